@@ -304,7 +304,7 @@ def call(fam, m, a, s, n):
         l, qm = L.sac_loss(m["q"], m["qt"], m["pol"], n["key"], s["alpha"], batch5(a, n), g)
         return dict(loss=l, q_mean=qm)
     if fam == "mrq":
-        b = (a["obs"], a["act"], a["rew"], a["nobs"], n["term"], jnp.zeros_like(n["term"]))
+        b = (a["obs"], a["act"], a["rew"], a["nobs"], n["term"], n["trunc"] if "trunc" in n else jnp.zeros_like(n["term"]))
         l, (zs, qm, td) = mrq_loss(m["q"], m["qt"], m["enc"], m["enct"], a["nact"], b, g, s["rs"], s["trs"])
         return dict(loss=l, q_mean=qm, td=td, zs=zs)
     if fam == "sale":
@@ -933,6 +933,15 @@ def run_mrq(item, col):
                             col.tick(1)
                             if not near(eo, out, MODE_RTOL):
                                 col.violation(SIG.format(entry, K_MODE), dict(detail, eager=eo, jit=out))
+                        # the truncation flags of the batch are not part of the documented target (a truncated step still
+                        # bootstraps): the same batch with truncation flags set gives the same output
+                        if ri == 0 and term is grp[0]:
+                            tr = np.ones_like(term) - term if term.any() else np.ones_like(term)
+                            out_tr = tonp(real.value(states, a, s, dict(term=term, trunc=tr)))
+                            col.tick(1, (fam, N, H, O, A, pi, pj, gamma, rs, term.tobytes(), "trunc"))
+                            col.outcome("mrq:truncation_flag_variants")
+                            if not same(out_tr, out):
+                                col.violation(SIG.format(entry, K_POST), dict(detail, what="truncation flags (not part of the documented target)", truncated=tr, base=out, got=out_tr))
                         # flags after the first termination of a row are irrelevant: same output as the canonical member
                         if canon_out is None:
                             canon_out, canon_term = out, term
@@ -1109,6 +1118,23 @@ def run_encoder(item, col):
                             unm = float(sqd.mean(1).sum())
                             if abs(unm - ref["dyn"]) > 1e-3:
                                 col.outcome("encoder:value_would_change_if:no_termination_mask")
+                        if ri == 0 and wi == 0 and term is grp[0] and N > 1:
+                            # sub-trajectories LONGER than the horizon handed to the loss (two more steps of other data): only the
+                            # first H steps are unrolled, so the output is that of the H-step batch
+                            pad = lambda x, y: jnp.concatenate((jnp.asarray(x), jnp.asarray(y)[:, :2]), axis=1)  # noqa: E731
+                            a_long = dict(obs=pad(a["obs"], f32(alt_obs)), act=pad(a["act"], f32(alt_act)), nobs=pad(a["nobs"], f32(alt_nobs)),
+                                          rew=pad(a["rew"], f32(alt_rew)))
+                            if a_long["obs"].shape[1] > H:
+                                t_long = np.concatenate((np.asarray(jt), np.zeros((N, a_long["obs"].shape[1] - H), dtype=np.asarray(jt).dtype)), axis=1)
+                                try:
+                                    out_long = tonp(value(states, a_long, wj, envterm, t_long))
+                                    col.tick(1, (fam, N, H, O, A, norm, pi, pj, envterm, term.tobytes(), "longer-batch"))
+                                    col.outcome("encoder:batches_longer_than_the_horizon")
+                                    if not all(num.close(out_long[kk], out[kk]) for kk in ("dyn", "rew", "done", "mse", "total")):
+                                        col.violation(SIG.format(entry, K_POST), dict(detail, what="steps beyond the encoder horizon enter the loss",
+                                                                                      base={k_: float(v) for k_, v in out.items()}, got={k_: float(v) for k_, v in out_long.items()}))
+                                except LOUD:
+                                    col.outcome("encoder:longer_batch_rejected_loudly")
                         ok = True
                         for kk, kind in (("dyn", K_DYN), ("rew", K_REW), ("done", K_DONE_MASK if masked else K_DONE), ("mse", K_MSE_MASK if masked else K_MSE)):
                             if not num.close(out[kk], ref[kk]):
